@@ -112,10 +112,11 @@ def exact_instances(tier):
     # long needles / far starts: content = one symbolic byte repeated, length concrete
     for kn, K in (("exact", "Exact"), ("prefix", "Prefix")) if tier == "quick" else (("exact", "Exact"), ("prefix", "Prefix"), ("postfix", "Postfix"), ("fuzzy", "Fuzzy1")):
         o = Inst("long_needle_%s_4200" % kn, 4203, "long_needle::<4200>(Kind::%s)" % K, ["C03", "C10", "C05"],
-                 {"L": 4200, "content": "one symbolic ASCII byte repeated", "kind": kn, "config": "symbolic"}, "matcher_exact")
+                 {"L": 4200, "content": "'a' repeated (concrete)", "kind": kn, "config": "symbolic"}, "matcher_exact")
         out.append(o)
-    out.append(Inst("far_start_22000", 22003, "far_start::<22000>()", ["C10", "C05", "C01"],
-                    {"L": 22000, "content": "symbolic filler byte repeated + symbolic last byte", "prefer_prefix": True}, "matcher_exact"))
+    out.append(Inst("prefix_penalty_starts_h", 8, "prefix_penalty_all_starts()", ["C10", "C03"],
+                    {"haystack": "65 600 symbolic bytes", "start": "symbolic (every position)", "needle": "1 char", "prefer_prefix": True,
+                     "entry": "Matcher::calculate_score called directly (window of one character)"}, "matcher_exact"))
     for h, n in f1:
         for pa in ["false", "true"]:
             out.append(Inst("fuzzy1_ascii_h%d_%s" % (h, "path" if pa == "true" else "dflt"), U(h),
@@ -171,12 +172,15 @@ def uni_instances(tier):
                 "contiguous_uni::<%d, 1, 1>(Kind::Fuzzy1, %s, Some(%s))" % (h, str(na).lower(), pa), ["C04", "C01", "C02", "C03", "C10"],
                 {"H": h, "N": 1, "kind": "fuzzy, one-character needle", "needle": "ascii bytes" if na else "code points", "bonus_profile": "match_paths" if pa == "true" else "default"})
     # representation independence at the public API (ASCII text held either way)
-    ri = [("Fuzzy1", 3, 2, False), ("Substring", 3, 2, False), ("Fuzzy1", 3, 2, True)] if q else \
-         [(K, h, n, g) for K in ("Fuzzy1", "Substring", "Prefix", "Postfix", "Exact") for (h, n) in ((3, 2), (3, 3), (4, 2)) for g in (False, True) if not (g and K != "Fuzzy1")]
+    # (the fuzzy entry points run end to end here - prefilter, symbolic window, DP - which is only
+    # affordable for the very smallest sizes)
+    ri = [("Fuzzy1", 2, 1, False), ("Substring", 3, 2, False), ("Fuzzy1", 3, 2, True), ("Exact", 2, 2, False)] if q else \
+         [("Fuzzy1", 2, 1, False), ("Fuzzy1", 2, 2, False), ("Fuzzy1", 3, 1, False), ("Fuzzy1", 3, 2, True), ("Fuzzy1", 4, 2, True)] + \
+         [(K, h, n, False) for K in ("Substring", "Prefix", "Postfix", "Exact") for (h, n) in ((3, 2), (3, 3), (4, 2))]
     for K, h, n, g in ri:
         nm = "repr_%s_h%d_n%d" % ("greedy" if g else ("fuzzy" if K == "Fuzzy1" else K.lower()), h, n)
         o = Inst(nm, max(h + 2, 7), "repr_independence::<%d, %d>(Kind::%s, %s)" % (h, n, K, str(g).lower()), ["C01", "C03", "C10"],
-                 {"H": h, "N": n, "entry": nm, "repr": "ASCII haystack x (bytes | code points) needle"}, "matcher_repr")
+                 {"H": h, "N": n, "entry": nm, "repr": "ASCII text held as bytes / code points on either side (4 combinations)"}, "matcher_uni")
         out.append(o)
     m = _with_rules(Inst("latin1_model_agrees_h", 13, None, ["C01", "C02", "C03", "C04", "C05", "C10"],
                          {"domain": "every scalar below U+0100 except U+00B5", "purpose": "stub models == real leaf functions"}, None), [(r"skip_search", 12)])
@@ -193,6 +197,25 @@ def pattern_instances(tier):
     for l in Ls[1:]:
         out.append(Inst("atom_new_ascii_l%d" % l, 12, "atom_new_ascii::<%d>()" % l, ["C14"],
                         {"L": l, "alphabet": "all 128 ASCII values", "case": "symbolic", "normalization": "symbolic"}, "matcher_pattern"))
+    return out
+
+
+def compose_instances(tier):
+    out = []
+    names = [("compose_a0", 0), ("compose_a1", 1), ("compose_a2", 2), ("match_list_a1", 1)] if tier == "quick" else \
+            [("compose_a0", 0), ("compose_a1", 1), ("compose_a2", 2), ("compose_a3", 3), ("match_list_a1", 1), ("match_list_a2", 2)]
+    for n, a in names:
+        out.append(Inst(n, 10, None, ["C15"], {"atoms": a, "kinds": "symbolic", "polarity": "symbolic", "per-atom outcomes and scores": "symbolic (stub table)",
+                                                "inputs": 3 if n.startswith("match_list") else 1}, None))
+    return out
+
+
+def utf32_instances(tier):
+    out = []
+    names = [("convert_ascii_l2", 2), ("convert_ascii_l3", 3), ("views_ascii_l3", 3), ("views_unicode_l3", 3)] if tier == "quick" else \
+            [("convert_ascii_l2", 2), ("convert_ascii_l3", 3), ("convert_ascii_l4", 4), ("views_ascii_l3", 3), ("views_unicode_l3", 3), ("views_unicode_l4", 4)]
+    for n, l in names:
+        out.append(Inst(n, 12, None, ["C17"], {"L": l, "content": "symbolic ASCII bytes (all CR/LF arrangements)" if "ascii" in n else "symbolic scalars", "ranges": "symbolic valid ranges"}, None))
     return out
 
 
@@ -219,6 +242,8 @@ FAMILIES = {
     "matcher_exact": exact_instances,
     "matcher_uni": uni_instances,
     "matcher_pattern": pattern_instances,
+    "compose": compose_instances,
+    "utf32": utf32_instances,
     "matcher_repr": lambda tier: [],
 }
 
